@@ -257,7 +257,7 @@ def corpus(rng):
 
 def gen(rng, tier):
     cases = corpus(rng)
-    n_cfg, per_cfg, steps = (36, 3, (18, 34)) if tier == "quick" else (400, 5, (20, 60))
+    n_cfg, per_cfg, steps = (50, 3, (18, 34)) if tier == "quick" else (400, 5, (20, 60))
     for ci in range(n_cfg):
         cfg = gen_cfg(rng)
         for _ in range(per_cfg):
